@@ -53,7 +53,7 @@ class C10Rotating(Scenario):
             was = o.check(key)
             eff = step["force"] or not was
             q0 = o.current_queue_size
-            o.add(key, step["force"])
+            structs.api_add(o, key, step.get("alt"), force=bool(step["force"]), hasher=self.sub.hasher)
             if eff:
                 for k in self.since:
                     self.since[k] += 1
